@@ -461,7 +461,7 @@ package compiler
 //@     invariant todo: forall s: int :: $i < s && s < len(newSchemas) ==> newSchemas[s].EntryPoint == old(schemas[s].EntryPoint)
 //
 //@ func (*RenameObject).processConstantRef
-//@   property C05
+//@   property C05 C15
 //@   requires pass != nil && def.Kind == ast.KindConstantRef
 //@   modifies def.ConstantReference.ReferredType
 //@   ensures  noerr: result.1 == nil && result.0 == def
